@@ -7,6 +7,11 @@ HOOK_COMMITS = subprocess.run(
     capture_output=True, text=True).stdout.strip().splitlines()
 
 CHECKS = {
+ "C01": dict(
+   text="Seeded deterministic simulation of the real streams engine (Limiter -> GenerateResponse flows over a generated 1-3 level fixed-window quota hierarchy with header groups) inside a synctest bubble. Sequential histories place requests exactly on, 1 ns before and after window ends and across long gaps; concurrent bursts are interleaved at instrumented lock sites. Oracle: executable reference counter per (quota, group, window) in two window-anchor readings; R1 bound (all runs), R2 no spurious refusal (sequential). Sampling, not proof.",
+   design_ref="DESIGN.md section 4 C01",
+   note="Trusted: synctest fake clock; reference model's reading of 'window' (anchored at first request, exact or truncated to seconds); each level has its own URL; bursts judged on the bound only.",
+   technique="deterministic simulation: seeded history + boundary-instant clock search + lock-site interleaving against a reference window counter"),
  "C10": dict(
    text="Seeded deterministic simulation of the real StrategyBasedQueuePlugin + DelayedPriorityQueue inside a synctest bubble (fake clock, token scheduler). Thousands of generated histories with stalls at the Unlock->select hand-off and at instrumented lock sites, clock targets on and next to window ends and TTL expiries; oracles R1 no stranding, R2 grants per window <= quota, R3 waiters <= queue size, R4 release order, R5 refusal only when full, evaluated on the engine's own decision events. Sampling, not proof.",
    design_ref="DESIGN.md section 4 C10",
